@@ -85,6 +85,13 @@ def build_items(tier, seed, wd):
             files = corpus.stratified_sample(cand, 160 if tier == "quick" else len(cand), seed + 5, always=("/styles/code_examples/",))
             for p in files:
                 add(p, ["--fix", "-c", cfgfile], "affix_" + cname)
+    # schedule scenarios: --fix_phase / skip_phase (the clean-up and indent points of rule_list.fix move with them)
+    scheds = [["--fix_phase", "4"], ["--skip_phase", "3"], ["--skip_phase", "1"], ["--skip_phase", "2", "4"], ["--fix_phase", "2"]]
+    cand = [p for p in paths if p.endswith("_test_input.vhd") or "/styles/code_examples/" in p]
+    for k, extra in enumerate(scheds if tier == "thorough" else scheds[:3]):
+        files = corpus.stratified_sample(cand, 60 if tier == "quick" else 600, seed + 31 + k, always=("/styles/code_examples/",))
+        for p in files:
+            add(p, ["--fix"] + extra, "sched:" + "_".join(extra).replace("--", ""))
     # generated designs (harness/gendesign.py): a fixed second corpus in which constructs meet that no fixture combines
     import gendesign
 
@@ -109,9 +116,9 @@ def build_items(tier, seed, wd):
     base_inputs = [p for p in paths if p.endswith("_test_input.vhd") or "/styles/code_examples/" in p or "/rule_doc/" in p]
     # comments at every line end / between all lines, case, spacing.  (Line-break and join recipes are used for C05 -
     # classification - where the property names them; see DESIGN.md section 5 for why the fix family leaves them out.)
-    recipes = ["eol1", "eolt1", "own1", "upper", "widen", "tight"] if tier == "quick" else ["eol1", "eolt1", "eol3a", "eol3b", "own1", "own3", "upper", "lower", "flip", "widen", "narrow", "tight", "tight2a", "tight2b"]  # not: break*, join*, breakcmt*
+    recipes = ["eol1", "eolt1", "own1", "upper", "widen", "tight", "lopl"] if tier == "quick" else ["lopl", "lopr", "eol1", "eolt1", "eol3a", "eol3b", "own1", "own3", "upper", "lower", "flip", "widen", "narrow", "tight", "tight2a", "tight2b"]  # not: break*, join*, breakcmt*
     for ri, rname in enumerate(recipes):
-        chosen = corpus.stratified_sample(base_inputs, 90 if tier == "quick" else len(base_inputs), seed + 17 * (ri + 1), always=("/styles/code_examples/",))
+        chosen = corpus.stratified_sample(base_inputs, 80 if tier == "quick" else len(base_inputs), seed + 17 * (ri + 1), always=("/styles/code_examples/",))
         for p in chosen:
             try:
                 with open(p, encoding="utf-8", newline="") as f:
